@@ -9,11 +9,13 @@ import (
 	"encoding/json"
 	"flag"
 	"fmt"
+	"github.com/taurusgroup/multi-party-sig/internal/ot"
 	"math/big"
 	"os"
 	"reflect"
 	"regexp"
 	"strings"
+	"sync"
 
 	"github.com/taurusgroup/multi-party-sig/internal/zzverif/drv"
 	"github.com/taurusgroup/multi-party-sig/internal/zzverif/ref"
@@ -440,6 +442,11 @@ func main() {
 		"a run that ends with an error on either party after a message was altered counts as 'error'; a finished run is judged on both parties' actual outputs against the honest inputs",
 		"correlated OT extension (message U) and the additive OT sender message (CombinedPads) carry no integrity check at their own layer by design (KOS Fig. 3 / DKLs18 put the checks into the extended OT and the multiplication); wrong outputs there are classified 'unchecked-by-design' and the same fields are enumerated inside the extended OT / multiplication, where they must be caught",
 	}
+	if *vkit.Mode == "race" {
+		racePass(res) // free-running, real random source: the deterministic seam is process-global and not installed here
+		res.Finish()
+		return
+	}
 	drv.Install()
 
 	var rp Case
@@ -547,4 +554,65 @@ func main() {
 		}
 	}
 	res.Finish()
+}
+
+// racePass (auxiliary, for the race-detector build): several multiplications IN FLIGHT AT THE SAME TIME in one
+// process, each on its own setup and with its own nonce.  They share nothing the caller can see, so
+// each must give its product, and the race detector must stay silent (a process-wide scratch object
+// between them would be both a data race and a source of wrong products).
+func racePass(res *vkit.Result) {
+	const G, rounds = 4, 12
+	setups := make([]setupPair, G)
+	for g := range setups {
+		if so := runCorreSetup(newCtx(fmt.Sprintf("race-setup-%d", g), nil), 3000+g, &setups[g]); !so.Finished || !so.RelOK {
+			res.Hard(fmt.Sprintf("race pass: setup %d failed: %+v", g, so))
+			return
+		}
+	}
+	var wg sync.WaitGroup
+	errs := make([]string, G)
+	for g := 0; g < G; g++ {
+		g := g
+		wg.Add(1)
+		go func() {
+			defer wg.Done()
+			defer func() {
+				if r := recover(); r != nil {
+					errs[g] = fmt.Sprint("panic: ", r)
+				}
+			}()
+			for i := 0; i < rounds && errs[g] == ""; i++ {
+				a, b := big.NewInt(int64(3+g)), big.NewInt(int64(5+i))
+				h := ctxHash("race", 100*g+i)
+				sender := ot.NewMultiplySender(h.Clone(), setups[g].S, scalarFromBig(a))
+				receiver, err := ot.NewMultiplyReceiver(h.Clone(), setups[g].R, scalarFromBig(b))
+				if err != nil {
+					errs[g] = err.Error()
+					return
+				}
+				ms, tA, err := sender.Round1(receiver.Round1())
+				if err != nil {
+					errs[g] = "sender: " + err.Error()
+					return
+				}
+				tB, err := receiver.Round2(ms)
+				if err != nil {
+					errs[g] = "receiver: " + err.Error()
+					return
+				}
+				sum := new(big.Int).Add(bigFromScalar(tA), bigFromScalar(tB))
+				sum.Mod(sum, ref.N)
+				if sum.Cmp(new(big.Int).Mul(a, b)) != 0 {
+					errs[g] = fmt.Sprintf("shares add up to %x, not to %d*%d", sum, a, b)
+				}
+			}
+		}()
+	}
+	wg.Wait()
+	for g, e := range errs {
+		res.Case(fmt.Sprintf("race|concurrent-multiplications|%d", g))
+		if e != "" {
+			res.Violate("ot|concurrent-multiplications|honest|fails", fmt.Sprintf("%d honest multiplications were in flight at the same time, each on its own setup and nonce; stream %d: %s", G, g, e), Case{Layer: "race"})
+		}
+	}
 }
